@@ -51,7 +51,7 @@ def rib_attr(comp, ev, rec):
     table = {
         "rib": {"C01"}, "fold": {"C01"}, "res": {"C01", "C06"}, "failedTrace": {"C01", "C12"},
         "pend": {"C02"}, "heldLost": {"C02", "C06"}, "pendShape": {"C02"}, "heldResolvable": {"C02", "C06"}, "heldNoFwd": {"C02"},
-        "dangling": {"C02"}, "try": {"C02"}, "incomplete": {"C02", "C06"}, "begin": {"C02"},
+        "dangling": {"C02"}, "try": {"C02", "C01"}, "incomplete": {"C02", "C06"}, "begin": {"C02"},
         "refs": {"C03"}, "counters": {"C03"},
         "mirror": {"C16"}, "mirrorVsRib": {"C16"}, "rsnapMissing": {"C16"}, "rsnapTag": {"C16"},
         "rsnapContent": {"C16"}, "rsnapUnexpected": {"C16"}, "snapMutated": {"C16"}, "snapUndelivered": {"C16"},
@@ -2317,3 +2317,81 @@ def c12_directed(ctx):
 
 
 REGISTRY["C12"].parts[1].directed = c12_directed
+
+
+def c01_directed(ctx):
+    """Held operations whose fate changes while they are held: an explicit REPLACE held on a missing group whose target
+    is then deleted (the retry must FAIL: nothing to replace) or deleted and re-added (the retry succeeds); several ADDs
+    of one key held on the same missing group (the last one applied must be the last one acknowledged)."""
+    out = []
+    for kind in ("v4", "v6", "mpls"):
+        for variant in ("deleted", "readded", "flushed"):
+            w = [{"a": "reset", "nis": ["DEFAULT", "vrf1"], "fwd": True},
+                 {"a": "op", "op": _op(1, "DEFAULT", "ADD", "nh", 1, noeid=True)}, {"a": "op", "op": _op(2, "DEFAULT", "ADD", "nhg", 1, nhs=(1,), noeid=True)},
+                 {"a": "op", "op": _op(3, "DEFAULT", "ADD", kind, "k1", g=1, noeid=True)},
+                 {"a": "op", "op": _op(4, "DEFAULT", "REPLACE", kind, "k1", g=7, pl="b", noeid=True)}]
+            if variant == "flushed":
+                w.append({"a": "flush", "nis": ["DEFAULT"]})
+                w += [{"a": "op", "op": _op(8, "DEFAULT", "ADD", "nh", 1, noeid=True)}]
+            else:
+                w.append({"a": "op", "op": _op(5, "DEFAULT", "DELETE", kind, "k1", noeid=True)})
+                if variant == "readded":
+                    w.append({"a": "op", "op": _op(6, "DEFAULT", "ADD", kind, "k1", g=1, pl="c", noeid=True)})
+            w += [{"a": "op", "op": _op(9, "DEFAULT", "ADD", "nhg", 7, nhs=(1,), noeid=True)},
+                  {"a": "op", "op": _op(10, "DEFAULT", "DELETE", "nhg", 7, noeid=True)}, {"a": "op", "op": _op(11, "DEFAULT", "DELETE", "nhg", 1, noeid=True)}]
+            out.append(json.dumps(w))
+        # three ADDs of one key held on the same missing group
+        for rep in range(4):
+            w = [{"a": "reset", "nis": ["DEFAULT", "vrf1"], "fwd": True}, {"a": "op", "op": _op(1, "DEFAULT", "ADD", "nh", 1, noeid=True)}]
+            for i, pl in enumerate(("a", "b", "c")):
+                w.append({"a": "op", "op": _op(2 + i, "DEFAULT", "ADD", kind, "k1", g=5, pl=pl, noeid=True)})
+            w += [{"a": "op", "op": _op(9, "DEFAULT", "ADD", "nhg", 5, nhs=(1,), noeid=True)}, {"a": "op", "op": _op(10, "DEFAULT", "DELETE", kind, "k1", noeid=True)}]
+            out.append(json.dumps(w))
+    return out
+
+
+def c05_directed(ctx):
+    """The learnt election id survives everything but a higher announcement: every session gone, Flushes of every kind
+    (override / with the id, one instance / all) with and without a session attached, then a lower announcement - the reply
+    carries the old maximum and the newcomer is not primary."""
+    out = []
+    pre = [{"a": "sreset", "nis": ["DEFAULT", "vrf1"], "fwd": True}, {"a": "open", "s": "s1"},
+           _msg("s1", {"k": "params", "red": "SINGLE_PRIMARY", "per": "PRESERVE", "ack": "RIB"}), _msg("s1", {"k": "elec", "id": [1, 2]}),
+           _msg("s1", {"k": "ops", "ops": [_op(1, "DEFAULT", "ADD", "nh", 1, eid=(1, 2))]})]
+    for keep in (False, True):
+        for fl in ({"ni": "*", "el": "override", "id": [0, 0]}, {"ni": "DEFAULT", "el": "override", "id": [0, 0]}, {"ni": "*", "el": "id", "id": [1, 2]}, {"ni": "*", "el": "id", "id": [2, 1]}):
+            w = list(pre)
+            if not keep:
+                w.append({"a": "close", "s": "s1", "mode": "eof"})
+            w += [{"a": "flushrpc", "r": fl}, {"a": "open", "s": "s2"},
+                  _msg("s2", {"k": "params", "red": "SINGLE_PRIMARY", "per": "PRESERVE", "ack": "RIB"}), _msg("s2", {"k": "elec", "id": [0, 2]}),
+                  _msg("s2", {"k": "ops", "ops": [_op(2, "DEFAULT", "ADD", "nh", 2, eid=(0, 2))]}),
+                  {"a": "flushrpc", "r": {"ni": "*", "el": "id", "id": [0, 2]}},
+                  _msg("s2", {"k": "elec", "id": [1, 2]}), _msg("s2", {"k": "ops", "ops": [_op(3, "DEFAULT", "ADD", "nh", 3, eid=(1, 2))]}),
+                  {"a": "get", "g": {"ni": "*", "aft": "ALL"}}]
+            out.append(json.dumps(w))
+    return out
+
+
+def c07_held_update(ctx):
+    """An installed entry with a held update of the same key (pointing at a missing group) is deleted: Get must not return it."""
+    out = []
+    for kind in ("v4", "v6", "mpls"):
+        for typ in ("ADD", "REPLACE"):
+            w = [{"a": "sreset", "nis": ["DEFAULT", "vrf1"], "fwd": True}, {"a": "open", "s": "s1"},
+                 _msg("s1", {"k": "params", "red": "SINGLE_PRIMARY", "per": "PRESERVE", "ack": "RIB"}), _msg("s1", {"k": "elec", "id": [0, 1]}),
+                 _msg("s1", {"k": "ops", "ops": [_op(1, "DEFAULT", "ADD", "nh", 1), _op(2, "DEFAULT", "ADD", "nhg", 1, nhs=(1,)), _op(3, "DEFAULT", "ADD", kind, "k1", g=1)]}),
+                 _msg("s1", {"k": "ops", "ops": [_op(4, "DEFAULT", typ, kind, "k1", g=9, pl="b")]}),
+                 {"a": "get", "g": {"ni": "*", "aft": "ALL"}},
+                 _msg("s1", {"k": "ops", "ops": [_op(5, "DEFAULT", "DELETE", kind, "k1")]}),
+                 {"a": "get", "g": {"ni": "*", "aft": "ALL"}},
+                 _msg("s1", {"k": "ops", "ops": [_op(6, "DEFAULT", "ADD", "nhg", 9, nhs=(1,))]}),
+                 {"a": "get", "g": {"ni": "*", "aft": "ALL"}}]
+            out.append(json.dumps(w))
+    return out
+
+
+REGISTRY["C01"].parts[0].directed = c01_directed
+REGISTRY["C05"].parts[0].directed = c05_directed
+_c07_old = REGISTRY["C07"].parts[0].directed
+REGISTRY["C07"].parts[0].directed = lambda ctx: _c07_old(ctx) + c07_held_update(ctx)
